@@ -410,207 +410,209 @@ func c04Scenario(r *kit.Run, idx int64, rng *rand.Rand) {
 			}
 		}, fn)
 	}
-	kit.WithProcs(c.Procs, func() { withHook(func() {
-		// the process must be clean before the scenario
-		if base, q := kit.Quiesce(c04Watchdog); !q || len(relevantLeft(base)) > 0 {
-			inconclusive = "the process is not clean before the scenario (a previous scenario leaked or is still running)"
-			return
-		}
-		out := c04Build(ctx, c, rng)
-		// consume k items
-		readN := func(it *fun.Iterator[int], k int) (int, error) {
-			for j := 0; j < k; j++ {
-				if _, err := it.ReadOne(ctx); err != nil {
-					return j, err
-				}
+	kit.WithProcs(c.Procs, func() {
+		withHook(func() {
+			// the process must be clean before the scenario
+			if base, q := kit.Quiesce(c04Watchdog); !q || len(relevantLeft(base)) > 0 {
+				inconclusive = "the process is not clean before the scenario (a previous scenario leaked or is still running)"
+				return
 			}
-			return k, nil
-		}
-		switch {
-		case out.ch != nil:
-			for j := 0; j < c.K; j++ {
-				if _, ok := <-out.ch; !ok {
-					break
-				}
-			}
-		case out.done != nil:
-		default:
-			if _, err := readN(out.its[0], c.K); err != nil && !errors.Is(err, io.EOF) && !(wgWindow && ctx.Err() != nil) {
-				note("unexpected-error", fmt.Sprintf("reading item before the cut point returned %v", err))
-			}
-		}
-		// how many module goroutines are alive now (coverage: the stop
-		// really has something to stop)
-		started = len(relevantLeft(kit.TakeCensus()))
-
-		closeAll := func() {
-			order := c.Order
-			if len(order) != len(out.its) {
-				order = nil
-				for i := range out.its {
-					order = append(order, i)
-				}
-			}
-			for _, i := range order {
-				d := make(chan struct{})
-				go func() { _ = out.its[i].Close(); _ = out.its[i].Close(); close(d) }()
-				if met, q, cs := kit.Await(c04Watchdog/4, c04Watchdog, func() bool { return isClosed(d) }); !met {
-					if q {
-						note("close-blocks", fmt.Sprintf("Close() of output %d does not return; at quiescence: %v", i, cs.Describe()))
-					} else {
-						inconclusive = "Close() not returned, not quiescent"
+			out := c04Build(ctx, c, rng)
+			// consume k items
+			readN := func(it *fun.Iterator[int], k int) (int, error) {
+				for j := 0; j < k; j++ {
+					if _, err := it.ReadOne(ctx); err != nil {
+						return j, err
 					}
 				}
+				return k, nil
 			}
-		}
-		switch c.Stop {
-		case "exhaust":
 			switch {
 			case out.ch != nil:
-				for range out.ch {
+				for j := 0; j < c.K; j++ {
+					if _, ok := <-out.ch; !ok {
+						break
+					}
 				}
 			case out.done != nil:
-				if met, q, cs := kit.Await(c04Watchdog/4, c04Watchdog, func() bool { return len(out.done) == 1 }); !met {
-					if q {
-						note("no-termination", fmt.Sprintf("ProcessParallel over a finite input does not return; at quiescence: %v", cs.Describe()))
-					} else {
-						inconclusive = "ProcessParallel not returned, not quiescent"
-					}
-				} else if err := <-out.done; err != nil {
-					note("unexpected-error", fmt.Sprintf("ProcessParallel returned %v", err))
-				}
 			default:
-				var wg sync.WaitGroup
-				for i, it := range out.its {
-					wg.Add(1)
-					go func(i int, it *fun.Iterator[int]) {
-						defer wg.Done()
-						for {
-							if _, err := it.ReadOne(ctx); err != nil {
-								if !errors.Is(err, io.EOF) {
-									note("no-eof", fmt.Sprintf("output %d of a finite pipeline ended with %v instead of io.EOF", i, err))
-								}
-								return
-							}
+				if _, err := readN(out.its[0], c.K); err != nil && !errors.Is(err, io.EOF) && !(wgWindow && ctx.Err() != nil) {
+					note("unexpected-error", fmt.Sprintf("reading item before the cut point returned %v", err))
+				}
+			}
+			// how many module goroutines are alive now (coverage: the stop
+			// really has something to stop)
+			started = len(relevantLeft(kit.TakeCensus()))
+
+			closeAll := func() {
+				order := c.Order
+				if len(order) != len(out.its) {
+					order = nil
+					for i := range out.its {
+						order = append(order, i)
+					}
+				}
+				for _, i := range order {
+					d := make(chan struct{})
+					go func() { _ = out.its[i].Close(); _ = out.its[i].Close(); close(d) }()
+					if met, q, cs := kit.Await(c04Watchdog/4, c04Watchdog, func() bool { return isClosed(d) }); !met {
+						if q {
+							note("close-blocks", fmt.Sprintf("Close() of output %d does not return; at quiescence: %v", i, cs.Describe()))
+						} else {
+							inconclusive = "Close() not returned, not quiescent"
 						}
-					}(i, it)
+					}
+				}
+			}
+			switch c.Stop {
+			case "exhaust":
+				switch {
+				case out.ch != nil:
+					for range out.ch {
+					}
+				case out.done != nil:
+					if met, q, cs := kit.Await(c04Watchdog/4, c04Watchdog, func() bool { return len(out.done) == 1 }); !met {
+						if q {
+							note("no-termination", fmt.Sprintf("ProcessParallel over a finite input does not return; at quiescence: %v", cs.Describe()))
+						} else {
+							inconclusive = "ProcessParallel not returned, not quiescent"
+						}
+					} else if err := <-out.done; err != nil {
+						note("unexpected-error", fmt.Sprintf("ProcessParallel returned %v", err))
+					}
+				default:
+					var wg sync.WaitGroup
+					for i, it := range out.its {
+						wg.Add(1)
+						go func(i int, it *fun.Iterator[int]) {
+							defer wg.Done()
+							for {
+								if _, err := it.ReadOne(ctx); err != nil {
+									if !errors.Is(err, io.EOF) {
+										note("no-eof", fmt.Sprintf("output %d of a finite pipeline ended with %v instead of io.EOF", i, err))
+									}
+									return
+								}
+							}
+						}(i, it)
+					}
+					d := make(chan struct{})
+					go func() { wg.Wait(); close(d) }()
+					if met, q, cs := kit.Await(c04Watchdog/4, c04Watchdog, func() bool { return isClosed(d) }); !met {
+						if q {
+							note("no-termination", fmt.Sprintf("a finite input never led to io.EOF; at quiescence: %v", cs.Describe()))
+						} else {
+							inconclusive = "exhausting consumer did not finish, not quiescent"
+						}
+						cancel()
+						<-d
+					}
+				}
+			case "close":
+				closeAll()
+			case "cancel":
+				cancel()
+			case "cancel-in-waitgroup-window":
+				// the hook cancels when a WaitGroup waiter reaches its park
+				// window; if none does (nothing waits), cancel here
+				if !kit.WaitUntil(200*time.Millisecond, func() bool { return wgHits.Load() > 0 }) {
+					cancel()
+				} else {
+					r.Count("waitgroup_window_cancels", 1)
+				}
+			case "close-then-cancel":
+				closeAll()
+				cancel()
+			case "concurrent-close":
+				var wg sync.WaitGroup
+				for _, it := range out.its {
+					for k := 0; k < 2; k++ {
+						wg.Add(1)
+						go func(it *fun.Iterator[int]) { defer wg.Done(); _ = it.Close() }(it)
+					}
 				}
 				d := make(chan struct{})
 				go func() { wg.Wait(); close(d) }()
 				if met, q, cs := kit.Await(c04Watchdog/4, c04Watchdog, func() bool { return isClosed(d) }); !met {
 					if q {
-						note("no-termination", fmt.Sprintf("a finite input never led to io.EOF; at quiescence: %v", cs.Describe()))
+						note("close-blocks", fmt.Sprintf("two concurrent Close() calls do not both return; at quiescence: %v", cs.Describe()))
 					} else {
-						inconclusive = "exhausting consumer did not finish, not quiescent"
+						inconclusive = "concurrent Close not returned, not quiescent"
+					}
+				}
+			case "close-while-parked", "cancel-while-parked":
+				// the consumer parks in ReadOne on a source that never ends;
+				// Close from a second goroutine (or cancel) must release it
+				ret := make(chan error, 1)
+				switch {
+				case out.ch != nil:
+					go func() { _, ok := <-out.ch; _ = ok; ret <- nil }()
+				case out.done != nil:
+					go func() { ret <- <-out.done }()
+				default:
+					go func() { _, err := out.its[0].ReadOne(ctx); ret <- err }()
+				}
+				if _, q := kit.Quiesce(c04Watchdog); !q {
+					inconclusive = "not quiescent while the consumer is expected to be parked"
+					cancel()
+					return
+				}
+				if len(ret) == 1 {
+					note("returned-without-stop", fmt.Sprintf("the consumer returned (%v) although the source has not ended and nothing stopped it", <-ret))
+					break
+				}
+				if c.Stop == "close-while-parked" && out.its != nil {
+					closeAll()
+				} else {
+					cancel()
+				}
+				if met, q, cs := kit.Await(c04Watchdog/4, c04Watchdog, func() bool { return len(ret) == 1 }); !met {
+					if q {
+						note("consumer-stuck", fmt.Sprintf("the consumer blocked in ReadOne did not return after %s; at quiescence: %v", c.Stop, cs.Describe()))
+					} else {
+						inconclusive = "parked consumer not released, not quiescent"
 					}
 					cancel()
-					<-d
 				}
 			}
-		case "close":
-			closeAll()
-		case "cancel":
-			cancel()
-		case "cancel-in-waitgroup-window":
-			// the hook cancels when a WaitGroup waiter reaches its park
-			// window; if none does (nothing waits), cancel here
-			if !kit.WaitUntil(200*time.Millisecond, func() bool { return wgHits.Load() > 0 }) {
-				cancel()
-			} else {
-				r.Count("waitgroup_window_cancels", 1)
-			}
-		case "close-then-cancel":
-			closeAll()
-			cancel()
-		case "concurrent-close":
-			var wg sync.WaitGroup
-			for _, it := range out.its {
-				for k := 0; k < 2; k++ {
-					wg.Add(1)
-					go func(it *fun.Iterator[int]) { defer wg.Done(); _ = it.Close() }(it)
-				}
-			}
-			d := make(chan struct{})
-			go func() { wg.Wait(); close(d) }()
-			if met, q, cs := kit.Await(c04Watchdog/4, c04Watchdog, func() bool { return isClosed(d) }); !met {
-				if q {
-					note("close-blocks", fmt.Sprintf("two concurrent Close() calls do not both return; at quiescence: %v", cs.Describe()))
-				} else {
-					inconclusive = "concurrent Close not returned, not quiescent"
-				}
-			}
-		case "close-while-parked", "cancel-while-parked":
-			// the consumer parks in ReadOne on a source that never ends;
-			// Close from a second goroutine (or cancel) must release it
-			ret := make(chan error, 1)
-			switch {
-			case out.ch != nil:
-				go func() { _, ok := <-out.ch; _ = ok; ret <- nil }()
-			case out.done != nil:
-				go func() { ret <- <-out.done }()
-			default:
-				go func() { _, err := out.its[0].ReadOne(ctx); ret <- err }()
-			}
-			if _, q := kit.Quiesce(c04Watchdog); !q {
-				inconclusive = "not quiescent while the consumer is expected to be parked"
+			if inconclusive != "" {
 				cancel()
 				return
 			}
-			if len(ret) == 1 {
-				note("returned-without-stop", fmt.Sprintf("the consumer returned (%v) although the source has not ended and nothing stopped it", <-ret))
-				break
-			}
-			if c.Stop == "close-while-parked" && out.its != nil {
-				closeAll()
-			} else {
+			// verdict: no goroutine of the module may remain
+			cs, q := kit.Quiesce(c04Watchdog)
+			if !q {
+				inconclusive = "not quiescent after the stop"
 				cancel()
+				return
 			}
-			if met, q, cs := kit.Await(c04Watchdog/4, c04Watchdog, func() bool { return len(ret) == 1 }); !met {
-				if q {
-					note("consumer-stuck", fmt.Sprintf("the consumer blocked in ReadOne did not return after %s; at quiescence: %v", c.Stop, cs.Describe()))
-				} else {
-					inconclusive = "parked consumer not released, not quiescent"
-				}
-				cancel()
+			if left := relevantLeft(cs); len(left) > 0 && problem == "" {
+				note("goroutine-leak", fmt.Sprintf("%d goroutine(s) started on behalf of the pipeline are still alive at quiescence after %s: %v", len(left), c.Stop, cs.Describe()))
 			}
-		}
-		if inconclusive != "" {
+			// clean up whatever is left so that the next scenario starts clean
 			cancel()
-			return
-		}
-		// verdict: no goroutine of the module may remain
-		cs, q := kit.Quiesce(c04Watchdog)
-		if !q {
-			inconclusive = "not quiescent after the stop"
-			cancel()
-			return
-		}
-		if left := relevantLeft(cs); len(left) > 0 && problem == "" {
-			note("goroutine-leak", fmt.Sprintf("%d goroutine(s) started on behalf of the pipeline are still alive at quiescence after %s: %v", len(left), c.Stop, cs.Describe()))
-		}
-		// clean up whatever is left so that the next scenario starts clean
-		cancel()
-		for _, it := range out.its {
-			_ = it.Close()
-		}
-		if out.ch != nil {
-			d := make(chan struct{})
-			go func() {
-				for range out.ch {
-				}
-				close(d)
-			}()
-			kit.WaitUntil(c04Watchdog/4, func() bool {
-				select {
-				case <-d:
-					return true
-				default:
-					return false
-				}
-			})
-		}
-		kit.Quiesce(c04Watchdog)
-	}) })
+			for _, it := range out.its {
+				_ = it.Close()
+			}
+			if out.ch != nil {
+				d := make(chan struct{})
+				go func() {
+					for range out.ch {
+					}
+					close(d)
+				}()
+				kit.WaitUntil(c04Watchdog/4, func() bool {
+					select {
+					case <-d:
+						return true
+					default:
+						return false
+					}
+				})
+			}
+			kit.Quiesce(c04Watchdog)
+		})
+	})
 	if inconclusive != "" {
 		r.Inconclusive("C04 scenario: " + inconclusive)
 		return
